@@ -5,6 +5,7 @@
 import Ladybug.DrvCore
 import Ladybug.Model.Sun
 import Ladybug.Model.SunObj
+import Ladybug.Model.SunExt
 
 open Drv
 
@@ -181,6 +182,26 @@ def handle (toks : List String) : String :=
   | ["sun_moy", lat, lon, tz, north, spleap, solar, moy] =>
     match cfg? lat lon tz north spleap, bool? solar, moy.toInt? with
     | some c, some solar, some m => showE (Sun.calcSunFromMoy ofN c m solar)
+    | _, _, _ => "bad-op"
+  | ["sun_py", lat, lon, tz, north, spleap, solar, dst, y, mo, da, h, mi] =>
+    -- a native datetime.datetime(y, mo, da, h, mi) (round 4); answer: the year the code computes with + the sun
+    match cfg? lat lon tz north spleap, bool? solar, bool? dst, y.toNat?, mo.toNat?, da.toNat?, h.toNat?, mi.toNat? with
+    | some c, some solar, some dst, some y, some mo, some da, some h, some mi =>
+      match Sun.sunOfNative ofN c y mo da h mi solar dst with
+      | .ok s => s!"{Sun.yearUsed c.leap y} " ++ showSun s
+      | .error e => showSErr e
+    | _, _, _, _, _, _, _, _ => "bad-op"
+  | ["sun_dst", lat, lon, tz, north, spleap, solar, dst, dtleap, mo, da, h, mi] =>
+    -- a ladybug DateTime in a daylight-saving hour (dst = 1) or not (round 4)
+    match cfg? lat lon tz north spleap, bool? solar, bool? dst, bool? dtleap, mo.toNat?, da.toNat?, h.toNat?, mi.toNat? with
+    | some c, some solar, some dst, some dl, some mo, some da, some h, some mi =>
+      match Cal.DT.make mo da h mi dl with
+      | .ok d => showE (Sun.liftSun (Sun.sunOfDTDst ofN c d solar dst))
+      | .error e => showCalErr e
+    | _, _, _, _, _, _, _, _ => "bad-op"
+  | ["dsthour", st, en, moy] =>
+    match st.toNat?, en.toNat?, moy.toNat? with
+    | some st, some en, some moy => s!"ok {showBool (Sun.dstHour st en moy)}"
     | _, _, _ => "bad-op"
   | ["vec", alt, az, north] =>
     match floatBits? alt, floatBits? az, floatBits? north with
